@@ -24,7 +24,8 @@ import time
 
 REPO = "/repo"
 VERIF = os.path.dirname(os.path.abspath(__file__))
-ENV = dict(os.environ, GOFLAGS="-mod=mod", GOPROXY="off", GOSUMDB="off", GOTOOLCHAIN="local")
+# the checks run against a patched /repo here: their evidence and replay files must not land in /verif
+ENV = dict(os.environ, GOFLAGS="-mod=mod", GOPROXY="off", GOSUMDB="off", GOTOOLCHAIN="local", VERIF_SCRATCH_OUT="/tmp/seed-out")
 PROPS = ["C%02d" % i for i in range(1, 19)]
 
 
